@@ -260,6 +260,73 @@ def translate(repo):
     out.append(f"Definition gen_select_new_population (mx : bool) (k_elites : nat) (parents offspring : pop (G:=G)) (order1 order2 : list nat) : pop (G:=G) :=\n  {code}.\n")
     fns.append(f"{SEA}:BaseSEA.select_new_population")
 
+    # BaseSEA.run / SEAWithAdaptiveMutation.run / MWEA.run: which population plays which role (symbolic data flow)
+    def sea_run(cls, base=None):
+        fn = find_def(smod, "run", cls)
+        an = [x.arg for x in fn.args.args]
+        if len(an) < 2 or an[0] != "self":
+            raise Unsupported(f"{SEA}:{fn.lineno}: {cls}.run signature {an}")
+        env = {}
+
+        def val(e_):
+            """symbolic value of a population expression: Coq code over `parents` and `pipeline`"""
+            if isinstance(e_, ast.Name) and e_.id in env:
+                return env[e_.id]
+            if isinstance(e_, ast.Call):
+                d_ = dotted(e_.func)
+                if d_ == "Population.from_individuals" and len(e_.args) == 1 and isinstance(e_.args[0], ast.Name) and e_.args[0].id == an[1]:
+                    return "parents"
+                if isinstance(e_.func, ast.Attribute) and e_.func.attr in ("copy", "to_individuals") and not e_.args and not e_.keywords:
+                    return val(e_.func.value)          # a value copy / the same individuals as a list
+                if d_ == "self.select_new_population" and len(e_.args) == 2 and not e_.keywords:
+                    return f"(gen_select_new_population mx k_elites {val(e_.args[0])} {val(e_.args[1])} order1 order2)"
+                if base and isinstance(e_.func, ast.Attribute) and e_.func.attr == "run" and isinstance(e_.func.value, ast.Call) and dotted(e_.func.value.func) == "super" \
+                        and e_.args and isinstance(e_.args[0], ast.Name) and e_.args[0].id == an[1]:
+                    return f"(gen_{base}_run mx k_elites pipeline parents order1 order2)"
+            raise Unsupported(f"{SEA}:{getattr(e_, 'lineno', '?')}: {cls}.run: unsupported population expression {ast.unparse(e_)[:120]}")
+
+        def mentions_pop(n_):
+            return any(isinstance(x, ast.Name) and (x.id in env or x.id == an[1]) for x in ast.walk(n_))
+        result_ = None
+        for s_ in fn.body:
+            if isinstance(s_, ast.Expr) and isinstance(s_.value, ast.Constant):
+                continue
+            if isinstance(s_, ast.Return) and s_.value is not None:
+                result_ = val(s_.value)
+                break
+            if isinstance(s_, ast.Assign) and len(s_.targets) == 1 and isinstance(s_.targets[0], ast.Name):
+                try:
+                    env[s_.targets[0].id] = val(s_.value)
+                    continue
+                except Unsupported:
+                    if isinstance(s_.value, ast.Call) and any(dotted(n_.func) in ("Population.from_individuals", "self.select_new_population") for n_ in ast.walk(s_.value) if isinstance(n_, ast.Call)):
+                        raise
+                    if any(isinstance(x, ast.Name) and x.id in env for x in ast.walk(s_.value)):
+                        raise
+                    continue          # a value that is not a population (a std, an array of stds): not modelled
+            if isinstance(s_, ast.For) and not s_.orelse and dotted(s_.iter) == "self.variational_operators_pipeline" and isinstance(s_.target, ast.Name) and len(s_.body) == 1 \
+                    and isinstance(s_.body[0], ast.Assign) and isinstance(s_.body[0].targets[0], ast.Name) and isinstance(s_.body[0].value, ast.Call) \
+                    and dotted(s_.body[0].value.func) == s_.target.id and len(s_.body[0].value.args) == 1 and dotted(s_.body[0].value.args[0]) == s_.body[0].targets[0].id \
+                    and s_.body[0].targets[0].id in env:
+                nm_ = s_.body[0].targets[0].id
+                env[nm_] = f"(pipeline {env[nm_]})"      # every operator of the pipeline, in order, each applied to the result of the one before
+                continue
+            if isinstance(s_, ast.Assert) and not mentions_pop(s_):
+                continue
+            if isinstance(s_, ast.Assign) and not any(isinstance(x, ast.Name) and x.id in env for x in ast.walk(s_)):
+                continue              # e.g. the adaptive engine setting its mutation's step size
+            raise Unsupported(f"{SEA}:{s_.lineno}: {cls}.run: unsupported statement {ast.unparse(s_)[:120]}")
+        if result_ is None:
+            raise Unsupported(f"{SEA}:{fn.lineno}: {cls}.run returns nothing")
+        return result_
+    for cls, base in (("BaseSEA", None), ("SEAWithAdaptiveMutation", "BaseSEA"), ("MWEA", None)):
+        out.append(f"Definition gen_{cls}_run (mx : bool) (k_elites : nat) (pipeline : pop (G:=G) -> pop (G:=G)) (parents : pop (G:=G)) (order1 order2 : list nat) : pop (G:=G) :=\n  {sea_run(cls, base)}.\n")
+        fns.append(f"{SEA}:{cls}.run")
+    for cls in ("SEA", "SEAWithCrossover", "GAStyleSEA"):
+        c_ = [n_ for n_ in smod.body if isinstance(n_, ast.ClassDef) and n_.name == cls]
+        if not c_ or [dotted(b_) for b_ in c_[0].bases] != ["BaseSEA"] or any(isinstance(n_, ast.FunctionDef) and n_.name in ("run", "select_new_population") for n_ in c_[0].body):
+            raise Unsupported(f"{SEA}: {cls} is not a BaseSEA that inherits run() and select_new_population()")
+
     # DE.run / SHADE.run: what is returned, in terms of the parents and the evaluated trial population
     dmod = ast.parse(open(f"{repo}/{DE}").read())
     for cls in ("DE", "SHADE"):
